@@ -47,6 +47,14 @@ func perturb(src []gen.Bar, p int, kind int, r *gen.Rand) []gen.Bar {
 			}
 		}
 		b := out[i]
+		if kind >= 4 {
+			// independent variation inside the bar as well (ratios of one bar's
+			// own fields, such as BoP or MFM, are blind to a common factor)
+			lo := b.L * fp
+			hi := lo + (b.H-b.L)*fp*r.FRange(0.3, 2.5) + 1e-3*lo
+			out[i] = gen.Bar{O: lo + (hi-lo)*r.F(), H: hi, L: lo, C: lo + (hi-lo)*r.F(), V: b.V*fv + 1}
+			continue
+		}
 		out[i] = gen.Bar{O: b.O * fp, H: b.H * fp, L: b.L * fp, C: b.C * fp, V: b.V*fv + 1}
 	}
 	return out
